@@ -125,7 +125,8 @@ def corrupt_watch(lines, pid):
         return None
 
 
-FAMILIES["watch"] = dict(vdrive="watch", trace_module="TraceD2Watch", trace_cfg="TraceD2Watch.cfg", corrupt=corrupt_watch, engine="TraceD2Watch", repro_attempts=4)
+FAMILIES["watch"] = dict(vdrive="watch", trace_module="TraceD2Watch", trace_cfg="TraceD2Watch.cfg", corrupt=corrupt_watch, engine="TraceD2Watch", repro_attempts=4,
+                        idle_judgement_aspects=["last-compile-did-not-use-latest-content", "latest-result-not-delivered-to-every-client-within-bound"])
 
 _watch_base = dict(
     quick=[dict(module="D2Watch", cfg="D2Watch_quick.cfg"),
@@ -449,7 +450,7 @@ def corrupt_oracle(lines, pid):
         if pid == "C36":
             e["fmtFixed"] = 0
             return "formatter-fixed-point flag cleared"
-        if pid == "C37" and op in ("set-label", "set-shape", "set-style") and e["after"]["objs"]:
+        if pid == "C37" and op in ("set-label", "set-shape", "set-style", "set-attr") and e["after"]["objs"]:
             for o in e["after"]["objs"]:
                 if o["lab"] != e["target"]:
                     o["shape"] = "hexagon" if o["shape"] != "hexagon" else "oval"
@@ -471,14 +472,20 @@ def corrupt_oracle(lines, pid):
     return None
 
 
-FAMILIES["oracle"] = dict(vdrive="oracle", trace_module="TraceD2Oracle", trace_cfg="TraceD2Oracle.cfg", corrupt=corrupt_oracle, engine="TraceD2Oracle", args={"n": "300"}, chunk=1500, heap="4g")
-FAMILIES["oracle_boards"] = dict(vdrive="oracle", trace_module="TraceD2Oracle", trace_cfg="TraceD2Oracle.cfg", corrupt=corrupt_oracle, engine="TraceD2Oracle", args={"n": "300", "boards": "1"}, chunk=1500, heap="4g")
-_or_rule = ("the history space is FIXED: history #i starts from the program generated from seed i (2-7 objects to depth 3, each with a unique tooltip as identity, labels, shapes, opacity/stroke/width/link, up to 4 labelled connections incl. self loops) "
-            "and applies 1 + i mod 8 edits drawn from create object / create connection / set label (25 tricky values: keywords in any case, strings needing quotes, numbers, empty, unicode) / set style / set shape / set connection style / "
-            "delete object / delete connection / delete attribute / rename (fresh, colliding, tricky names) / move (into, out of, to a fresh container; with and without descendants) / reconnect; every object or connection an edit creates is tagged with an identity before the next edit. "
-            "3000 histories; quick takes the 300 that VERIF_SEED selects. Non-trivial: ")
+FAMILIES["oracle"] = dict(vdrive="oracle", trace_module="TraceD2Oracle", trace_cfg="TraceD2Oracle.cfg", corrupt=corrupt_oracle, engine="TraceD2Oracle", args={"n": "1000"}, chunk=1500, heap="4g")
+FAMILIES["oracle_boards"] = dict(vdrive="oracle", trace_module="TraceD2Oracle", trace_cfg="TraceD2Oracle.cfg", corrupt=corrupt_oracle, engine="TraceD2Oracle", args={"n": "1000", "boards": "1"}, chunk=1500, heap="4g")
+_or_rule = ("the history space is FIXED and has three parts. (1) generator 1, history #i: the program generated from seed i (2-7 objects to depth 3, one block per object, each with a unique tooltip as identity, labels, shapes, "
+            "opacity/stroke/width/link, up to 4 labelled connections incl. self loops) and 1 + i mod 8 edits drawn from create object / create connection / set label (60 tricky values: keywords and booleans in any case, strings "
+            "needing quotes, numbers, escapes, empty, unicode) / set style / set shape / set connection style / delete object / delete connection / delete attribute / rename (fresh, colliding, tricky names) / move (into, out of, "
+            "to a fresh container; with and without descendants) / reconnect. (2) generator 2, history #i: programs written the way people write them - names from a pool of four so that the same name occurs at several levels, "
+            "objects declared as blocks, as flat dotted keys or with nested style maps, 25 attribute kinds, connections declared inside containers with relative names and at the root with dotted paths, ends that are declared "
+            "nowhere else (implicit objects, identified by the connection they end; implicit containers, identified by their ID), scenarios that refer to base objects - and 1 + i mod 6 edits that additionally set and delete any "
+            "of 25 object and 15 connection attributes; the first edit of 4 histories in 6 is aimed (delete a container, move an untagged end, move a container, move a deeply nested object). (3) 16 written histories "
+            "(harness/cmd/vdrive/oraclescripts.go): the reproducers of every defect this family found. Every object or connection an edit creates is tagged before the next edit; an edit that is meant to change the ID of an "
+            "ID-identified object, or to remove the connection an object is identified by, is not applied. 3000 + 3000 generated histories + 16 written ones; quick takes the 1000 + 1000 that VERIF_SEED selects and the written ones. Non-trivial: ")
 _or_assume = ["identity of an object = its tooltip, of a connection = its label; IDs are derived data", "a refused edit may leave the graph it was given modified; the harness continues from a fresh compile of the last good text",
-              "Delete of an attribute is exercised for the attributes d2oracle handles (style keywords, width, link); shape and label keys are silently ignored by Delete and are not exercised"]
+              "Delete of an attribute is exercised for the attributes d2oracle.Delete handles by design (style keywords, near, icon, width, height, top, left, link; any attribute of a connection); other reserved keys (shape, label, direction, grid-*) are ignored by Delete and are not exercised",
+              "a crash of an edit is reported under C36"]
 for _pid, _nt, _txt, _tech in [
     ("C36", "at least one successful edit", "Post-condition of every successful edit.", "every successful edit's text is re-compiled and re-formatted; TLC checks compiles / equals the returned graph / formatter fixed point"),
     ("C37", "a successful create or set", "Effect and frame condition of Create and Set on the identity-keyed graph.", "TLC evaluates effect + frame condition of Create/Set on the identity-keyed before/after snapshots of the real call"),
